@@ -132,7 +132,7 @@ func c23Setup(passive bool) *c23Env {
 }
 
 func (env *c23Env) newConn() *c23Conn {
-	c := &c23Conn{readFail: make(chan struct{})}
+	c := &c23Conn{readFail: make(chan struct{}), failWrite: vParam("failwrite") == 1}
 	env.conns = append(env.conns, c)
 	return c
 }
@@ -226,7 +226,9 @@ func (env *c23Env) inject(ev int) bool {
 	case evUpdate:
 		return sendMsg(c23Msg(packet.UpdateMsg, []byte{0, 0, 0, 20, 0x40, 1, 1, 0, 0x40, 2, 4, 2, 1, 0xfd, 0xe9, 0x40, 3, 4, 169, 254, 100, 100, 0x80, 4, 4, 0, 0, 0, ndU8(), 16, 10, 7}))
 	case evNotification:
-		return sendMsg(c23Msg(packet.NotificationMsg, []byte{packet.Cease, 0}))
+		code, sub := ndU8(), ndU8() // any NOTIFICATION the decoder accepts
+		vAssume(code >= 1 && code <= 6 && sub <= 11)
+		return sendMsg(c23Msg(packet.NotificationMsg, []byte{code, sub}))
 	case evMalformed:
 		m := c23Msg(packet.KeepaliveMsg, nil)
 		m[3] = 0
@@ -390,7 +392,10 @@ func VC23_Steps() {
 			env.quiet = 0
 		}
 		// a timer event that lets the hold time run out is a hold timer expiry
-		vAssert(c23Allowed(cur, ev, next, took) || (holdDue && (ev == evKeepaliveTimer || ev == evConnectRetryTimer)), "C23.step.allowed")
+		// on a transport that refuses writes, sending the KEEPALIVE fails: TcpConnectionFails (OpenSent -> Active, later -> Idle)
+		writeFailed := vParam("failwrite") == 1 && took && ((cur == c23OpenSent && (ev == evOpen || ev == evBadOpen) && next == c23Active) ||
+			((cur == c23OpenConfirm || cur == c23Established) && ev == evKeepaliveTimer && next == c23Idle))
+		vAssert(c23Allowed(cur, ev, next, took) || writeFailed || (holdDue && (ev == evKeepaliveTimer || ev == evConnectRetryTimer)), "C23.step.allowed")
 		// routes are attached to the Loc-RIB exactly while the session is Established
 		if next == c23Established {
 			vAssert(env.fullyAttached(), "C23.established.attached")
